@@ -103,7 +103,10 @@ func (c *cClient) step(in *sut.Instance, mods map[string]bool) {
 	// the rejection branches and the plain pages of every loaded flow
 	acts = append(acts, "getlogin")
 	if mods["recover"] {
-		acts = append(acts, "badrecoverend", "recoverunknown", "getrecover", "shortrecoverend")
+		acts = append(acts, "badrecoverend", "recoverunknown", "getrecover", "shortrecoverend", "recoverburst")
+	}
+	if mods["oauth2"] {
+		acts = append(acts, "oauthstart", "oauthcallback", "oauthstart")
 	}
 	if mods["register"] {
 		acts = append(acts, "badregister", "getregister")
@@ -153,6 +156,26 @@ func (c *cClient) step(in *sut.Instance, mods map[string]bool) {
 		c.do(in, "POST", "/auth/register", map[string]string{"email": c.pid, "password": c.pw, "confirm_password": c.pw})
 	case "badconfirm":
 		c.do(in, "GET", "/auth/confirm?cnf=bm9wZQ", nil)
+	case "recoverburst":
+		// several recoveries back to back: every client's token generator, mailer and storage calls overlap the others'
+		for i := 0; i < 4; i++ {
+			c.do(in, "POST", "/auth/recover", map[string]string{"email": c.pid})
+			tok := c.mail(in, "recover")
+			if tok == "" {
+				c.out = append(c.out, "no recover mail")
+				return
+			}
+			c.pw = c.pw + "y"
+			c.do(in, "POST", "/auth/recover/end", map[string]string{"token": tok, "password": c.pw, "confirm_password": c.pw})
+		}
+	case "oauthstart":
+		c.do(in, "GET", "/auth/oauth2/pa?rm=true", nil)
+	case "oauthcallback":
+		st := c.jar.Session["oauth2_state"]
+		if st == "" {
+			st = "none"
+		}
+		c.do(in, "GET", "/auth/oauth2/callback/pa?state="+url.QueryEscape(st)+"&code="+url.QueryEscape(fmt.Sprintf("uid:c%d", c.id)), nil)
 	case "getlogin":
 		c.do(in, "GET", "/auth/login", nil)
 	case "getrecover":
@@ -248,6 +271,7 @@ func concCmd(args []string) {
 		{"auth", "logout", "otp", "register", "confirm"},
 		{"auth", "logout", "remember", "recover", "otp"},
 		{"auth", "logout", "recover", "register", "confirm", "lock", "otp", "remember"},
+		{"auth", "logout", "oauth2", "recover", "remember"},
 	}
 	for r := 0; r < *rounds; r++ {
 		mods := modSets[r%len(modSets)]
